@@ -96,7 +96,7 @@ func (acl *ACL) Allow(user string, scope ACLScope, required ACLPerm) (ACLPerm, b
 
 func (*ACL) fromDefault(perms map[ACLScope]ACLPerm, required ACLPerm) (assigned ACLPerm, allow bool) {
 	if p, found := perms[defaultACLScope]; found {
-		return p, p >= required
+		return p, p > aclPermProhibit && p >= required
 	}
 
 	return assigned, false
@@ -113,7 +113,7 @@ func (acl *ACL) allow(user string, scope ACLScope, required ACLPerm) (assigned A
 			assigned, allow = acl.fromDefault(perms, required)
 		default:
 			assigned = p
-			allow = p >= required
+			allow = p > aclPermProhibit && p >= required
 		}
 
 		return nil
